@@ -37,6 +37,8 @@ BODIES = {
     "fiber_finished_kept_chain": "var prev = keep[(i + KEEP - 1) % KEEP]; var w = Fiber.new(|p| { var local = [p, i]; return 1; }); w.call(prev); keep[i % KEEP] = w; total += 1;",
     "fiber_finished_kept_chain_nested": "var prev = keep[(i + KEEP - 1) % KEEP]; var w = Fiber.new(|p| { fn inner(q) { var t = (q, i); return 2; } var u = [p]; return inner(u); }); w.call(prev); keep[i % KEEP] = w; total += 1;",
     "fiber_finished_after_yield_chain": "var prev = keep[(i + KEEP - 1) % KEEP]; var w = Fiber.new(|p| { var a = [p]; var got = Fiber.yield(1); var b = [got, a]; return 3; }); w.call(prev); w.call(prev); keep[i % KEEP] = w; total += 1;",
+    "fiber_closure_after_yield": "var fb = Fiber.new(|p| { var cell = [p, i]; var get = || cell; Fiber.yield(get); cell = [i]; return get; }); var g1 = fb.call(i); var g2 = fb.call(); keep[i % KEEP] = [g1, g2]; total += g2().len();",
+    "fiber_method_closure": "var fb = Fiber.new(|| { var o = P.new([i]); var acc = 0; var add = |v| { acc = acc + v; return acc + o.get()[0]; }; add(1); return add; }); keep[i % KEEP] = fb.call(); total += 1;",
     "fiber_calls_kept_suspended": "var prev = keep[(i + KEEP - 1) % KEEP]; var fb = Fiber.new(|a| { var x = [a]; while true { x = [Fiber.yield(x)]; } }); fb.call(i); if type(prev) == Fiber { if !prev.has_finished() { prev.call(i); } } keep[i % KEEP] = fb; total += 1;",
     "fiber_stage_closure": "var prev = keep[(i + KEEP - 1) % KEEP]; var fb = Fiber.new(|p| { var state = [0]; return |v| { state[0] = state[0] + v; return state[0]; }; }); var acc = fb.call(prev); acc(i); keep[i % KEEP] = acc; total += 1;",
     "fiber_stage_param_closure": "var prev = keep[(i + KEEP - 1) % KEEP]; var fb = Fiber.new(|p| { var mine = [i]; var pad = p; Fiber.yield(|| mine); return 0; }); var g = fb.call(prev); fb.call(); keep[i % KEEP] = g; total += g().len();",
@@ -60,6 +62,16 @@ BODIES = {
     "interpolation": "var s = \"v=${[i % 3]} t=${(i % 2,)}\"; keep[i % KEEP] = [s]; total += 1;",
     "type_and_derives": "var o = P.new(i); keep[i % KEEP] = [type(o), o.derives(P), type(type(o))]; total += 1;",
     "reduce": "keep[i % KEEP] = [1, 2, 3].iter().reduce(|a, v| { a.push([v, i]); return a; }, []); total += 1;",
+}
+
+# kinds of object that the program cannot reach any more once the loop is over, per body: after n iterations and a forced
+# collection there must be exactly as many of them as after none. (A closure that outlived the fiber it was created in
+# does not need that fiber; a finished fiber whose result is kept is not needed either.)
+VANISH = {
+    "fiber_done": ["ObjFiber"], "fiber_nested": ["ObjFiber"], "fiber_stage_closure": ["ObjFiber"],
+    "fiber_stage_param_closure": ["ObjFiber"], "fiber_stage_block_closure": ["ObjFiber"],
+    "fiber_closure_after_yield": ["ObjFiber"], "fiber_method_closure": ["ObjFiber"],
+    "closure": ["ObjFiber"], "iter_chain": ["ObjFiber"],
 }
 
 
